@@ -83,9 +83,13 @@ def distrOK (d : Distr) : Bool :=
   d.idxByKey.all (fun kv => decide (kv.2 < d.limits.length)) &&
   d.limits.all (fun x => decide (0 ≤ x)) && decide (0 ≤ d.defLimit)
 
-def cfgOK (cfg : Cfg) : Bool :=
-  decide (0 < cfg.count) && decide (0 < cfg.interval) && decide (cfg.rules.length ≤ 256) &&
+/-- the part of `cfgOK` the oracle excuses a run for (`rules.length ≤ 256` is NOT excused: with
+    more rules the rule index byte of the limiter key wraps and rules share limiters) -/
+def cfgScope (cfg : Cfg) : Bool :=
+  decide (0 < cfg.count) && decide (0 < cfg.interval) &&
   cfg.rules.all (fun r => !r.distr.isEnabled || distrOK r.distr)
+
+def cfgOK (cfg : Cfg) : Bool := cfgScope cfg && decide (cfg.rules.length ≤ 256)
 
 /-- the hypothesis of the `…_partial` theorems about the limiters map's expiry: whenever an event
     finds no limiter for its key (`live` = keys that have one; a key loses it by `expire`), no
@@ -156,12 +160,17 @@ def rejectOK (cfg : Cfg) : List Ev → List (Ev × Bool) → Bool
        else decide (ir.2.limit < arrived cfg (limKey ir.1 (throttleKey x.1)) (attr cfg x.1) (pre ++ [x.1])))
     && rejectOK cfg (pre ++ [x.1]) t
 
-/-- the (limiter key, bucket) pairs to look at: one representative event per pair -/
-def reps (cfg : Cfg) : List (Ev × Bool) → List (Option Bytes × Int) → List (Ev × Bool)
+def ruleIdxOf (cfg : Cfg) (e : Ev) : Option Nat :=
+  match ruleOf cfg e with
+  | some ir => some ir.1
+  | none => none
+
+/-- the (rule, limiter key, bucket) triples to look at: one representative event per triple -/
+def reps (cfg : Cfg) : List (Ev × Bool) → List (Option Nat × Option Bytes × Int) → List (Ev × Bool)
   | [], _ => []
   | x :: t, seen =>
-    if seen.contains (limKeyOf cfg x.1, attr cfg x.1) then reps cfg t seen
-    else x :: reps cfg t ((limKeyOf cfg x.1, attr cfg x.1) :: seen)
+    if seen.contains (ruleIdxOf cfg x.1, limKeyOf cfg x.1, attr cfg x.1) then reps cfg t seen
+    else x :: reps cfg t ((ruleIdxOf cfg x.1, limKeyOf cfg x.1, attr cfg x.1) :: seen)
 
 /-- over-limit check (safety) of the observed answers -/
 def safeHolds (cfg : Cfg) (obs : List (Ev × Bool)) : Bool :=
@@ -174,11 +183,11 @@ inductive Verdict
   | rejectedUnderLimit
 deriving DecidableEq, Repr
 
-/-- the oracle: inside the hypotheses `cfgOK`, `nowOK`, `sizesOK` the observed answers must not
+/-- the oracle: inside the hypotheses `cfgScope`, `nowOK`, `sizesOK` the observed answers must not
     exceed any limit (full statement: expiry is NOT excused); `rejectOK` is only demanded of runs
     without expiry (`noExpiry`), where it is a theorem of the model -/
 def verdict (cfg : Cfg) (obs : List (Ev × Bool)) (noExpiry : Bool) : Verdict :=
-  if !(cfgOK cfg && nowOK cfg ((cfg.count : Int) * cfg.interval) (obs.map (·.1)) && sizesOK (obs.map (·.1))) then .outOfScope
+  if !(cfgScope cfg && nowOK cfg ((cfg.count : Int) * cfg.interval) (obs.map (·.1)) && sizesOK (obs.map (·.1))) then .outOfScope
   else if !safeHolds cfg obs then .overLimit
   else if noExpiry && !rejectOK cfg [] obs then .rejectedUnderLimit
   else .ok
